@@ -17,7 +17,7 @@ class ChildFailed(core.HarnessError):
     pass
 
 
-def run(fn, *args, timeout_s: float = 120.0):
+def run(fn, *args, timeout_s: float = 900.0):
     r, w = os.pipe()
     pid = os.fork()
     if pid == 0:
